@@ -102,6 +102,13 @@ func c10Select(name string, base *c10T) *c10T {
 		}
 		return c10mk("zero", base.name+"."+name)
 	}
+	if base.op == "obj" {
+		for _, m := range base.args {
+			if m.is("member", name) && len(m.args) == 1 {
+				return m.args[0]
+			}
+		}
+	}
 	return c10mk("fld", name, base)
 }
 
@@ -359,6 +366,12 @@ type c10W struct {
 	keep func(t *c10T) bool
 	// forall: callee names (as rendered by c10CallName) that act as per-element guards of a loop
 	forall map[string]bool
+	// noInline: in-package functions whose results are kept as results of that call (not looked through): the
+	// call is itself the mechanism a rule asks about
+	noInline func(f *ssa.Function) bool
+	// objects: pointers to helper objects built by an in-package composite literal are described by their
+	// write-once members (c10n4_objects.go)
+	objects bool
 	// visit is called for every instruction on every path; returning true ends the path there.
 	visit func(in ssa.Instruction, st *c10State) bool
 	// onEdge is called before an edge is followed; returning true ends the path there.
@@ -1114,6 +1127,9 @@ func (cx c10Cx) inline(call *ssa.Call, idx int) (ssa.Value, c10Cx, bool) {
 	if c10PureCtor(an.FuncName(f)) || f.Recover != nil {
 		return nil, cx, false
 	}
+	if cx.w.noInline != nil && cx.w.noInline(f) {
+		return nil, cx, false
+	}
 	// the status of a helper (its last, error-typed result) is not a value to look through: it stays the
 	// status of that call, about which the path learns facts
 	if res := f.Signature.Results(); idx == res.Len()-1 && an.IsErrorType(res.At(idx).Type()) {
@@ -1163,6 +1179,9 @@ func (cx c10Cx) pointee(p ssa.Value, at ssa.Instruction) *c10T {
 		return c10mk("fld", c10FieldNameOf(x.X.Type(), x.Field), cx.pointee(x.X, at))
 	case *ssa.IndexAddr:
 		return c10mk("idx", "", cx.pointeeOrValue(x.X, at), cx.term(x.Index))
+	}
+	if obj := cx.heapObject(p); obj != nil {
+		return obj
 	}
 	return c10mk("deref", "", cx.term(p))
 }
@@ -1801,7 +1820,7 @@ func (w *c10W) summaryK(call *ssa.Call, ch c10Chain, kind string, konst *ssa.Con
 	}
 	nch := ch.push(call)
 	st0, mem := from.memory()
-	key := fmt.Sprintf("%p%s/%s/%t/%t/%d/%s", f, nch.id(), kind, w.base != nil, w.keep != nil, len(w.forall), mem)
+	key := fmt.Sprintf("%p%s/%s/%t/%t/%t/%d/%s", f, nch.id(), kind, w.base != nil, w.keep != nil, w.noInline != nil, len(w.forall), mem)
 	if w.sums == nil {
 		w.sums = c10NewSums()
 	}
@@ -1811,7 +1830,7 @@ func (w *c10W) summaryK(call *ssa.Call, ch c10Chain, kind string, konst *ssa.Con
 	w.sums.m[key] = nil // recursion guard
 	var common map[string]c10Fact
 	n := 0
-	sub := &c10W{fn: f, ch: nch, base: w.base, forall: w.forall, sums: w.sums, keep: w.keep}
+	sub := &c10W{fn: f, ch: nch, base: w.base, forall: w.forall, sums: w.sums, keep: w.keep, noInline: w.noInline}
 	sub.visit = func(in ssa.Instruction, st *c10State) bool {
 		r, ok := in.(*ssa.Return)
 		if !ok {
@@ -1969,7 +1988,7 @@ func (w *c10W) addForall(l *an.Loop, st *c10State) {
 	var common map[string]*c10T
 	iterations := 0
 	broken := false
-	sub := &c10W{fn: w.fn, ch: w.ch, base: w.base, sums: w.sums}
+	sub := &c10W{fn: w.fn, ch: w.ch, base: w.base, sums: w.sums, noInline: w.noInline}
 	sub.prepare()
 	var arrive func(st *c10State)
 	arrive = func(st *c10State) {
